@@ -27,6 +27,31 @@ TokText == [
   InterpStrLiteral |-> <<36, 34, 115, 34>> ]
 AllToks == DOMAIN TokText
 NonCont == AllToks \ ContinuationToks
+\* the remaining keywords, and identifiers that begin or end like a keyword (a word is a keyword only as a whole)
+KwText2 == [
+  Continue |-> <<99, 111, 110, 116, 105, 110, 117, 101>>, Else |-> <<101, 108, 115, 101>>, False |-> <<102, 97, 108, 115, 101>>,
+  Fn |-> <<102, 110>>, For |-> <<102, 111, 114>>, In |-> <<105, 110>>, Return |-> <<114, 101, 116, 117, 114, 110>>,
+  True |-> <<116, 114, 117, 101>>, While |-> <<119, 104, 105, 108, 101>> ]
+IdText == [
+  IdElse |-> <<101, 108, 115, 101, 119, 104, 101, 114, 101>>,      \* elsewhere
+  IdElse2 |-> <<101, 108, 115, 101, 95, 49>>,                      \* else_1
+  IdIf |-> <<105, 102, 102, 121>>,                                 \* iffy
+  IdIn |-> <<105, 110, 120>>,                                      \* inx
+  IdFn |-> <<102, 110, 49>>,                                       \* fn1
+  IdFor |-> <<102, 111, 114, 109>>,                                \* form
+  IdNull |-> <<110, 117, 108, 108, 115>>,                          \* nulls
+  IdTrue |-> <<116, 114, 117, 101, 95>>,                           \* true_
+  IdWhile |-> <<119, 104, 105, 108, 101, 115>>,                    \* whiles
+  IdBreak |-> <<98, 114, 101, 97, 107, 115>>,                      \* breaks
+  IdRet |-> <<114, 101, 116, 117, 114, 110, 101, 100>>,            \* returned
+  IdCont |-> <<99, 111, 110, 116, 105, 110, 117, 101, 100>>,       \* continued
+  IdFalse |-> <<102, 97, 108, 115, 101, 121>>,                     \* falsey
+  IdUs |-> <<95, 101, 108, 115, 101>>,                             \* _else
+  IdThis |-> <<116, 104, 105, 115>>,                               \* this
+  IdUpper |-> <<69, 108, 115, 101>> ]                              \* Else
+NewToks == DOMAIN KwText2 \cup DOMAIN IdText
+TextOfTok(n) == IF n \in DOMAIN TokText THEN TokText[n] ELSE IF n \in DOMAIN KwText2 THEN KwText2[n] ELSE IdText[n]
+KindOfTok(n) == IF n \in DOMAIN IdText THEN "Ident" ELSE n
 
 SepText == [
   none |-> <<>>, space |-> <<32>>, tab |-> <<9>>, cr |-> <<13>>, lf |-> <<10>>, comment |-> <<32, 35, 32, 59, 99, 10>>,
@@ -47,11 +72,15 @@ TripleSeps == {"space", "lf", "semi", "comment", "crlf"}
 \* pairs: every token x every separator x every token; triples: a smaller middle / last set
 Cases ==
     { <<a, s1, b, "none", "-">> : a \in Firsts, s1 \in Seps, b \in Firsts }
+    \cup { <<a, s1, b, "none", "-">> : a \in {"BraceClose", "Ident", "IntLiteral", "ParenClose", "Sum", "Comma", "StrLiteral"},
+                                       s1 \in Seps, b \in NewToks }
+    \cup { <<b, s1, a, "none", "-">> : b \in NewToks, s1 \in Seps, a \in {"Ident", "BraceOpen", "ParenOpen", "Sum", "IntLiteral"} }
+    \cup { <<"BraceClose", s1, b, s2, "BraceOpen">> : s1 \in TripleSeps, b \in NewToks, s2 \in {"space", "lf"} }
     \cup { <<a, s1, b, s2, cx>> : a \in TripleFirsts, s1 \in TripleSeps, b \in Seconds, s2 \in TripleSeps, cx \in Thirds }
 
 TextOf(cs) ==
-    TokText[cs[1]] \o SepText[cs[2]] \o TokText[cs[3]]
-    \o (IF cs[5] = "-" THEN <<>> ELSE SepText[cs[4]] \o TokText[cs[5]]) \o <<10>>
+    TextOfTok(cs[1]) \o SepText[cs[2]] \o TextOfTok(cs[3])
+    \o (IF cs[5] = "-" THEN <<>> ELSE SepText[cs[4]] \o TextOfTok(cs[5])) \o <<10>>
 
 SepsAll == DOMAIN SepText
 
@@ -63,9 +92,9 @@ LNext == LexNext /\ cs' = cs
 \* token is a continuation token
 EndAfter(tk, sp) == IF Terminates(sp) /\ tk \notin ContinuationToks THEN <<"StmtEnd">> ELSE <<>>
 Expected(x) ==
-    <<x[1]>> \o EndAfter(x[1], x[2]) \o <<x[3]>>
+    <<KindOfTok(x[1])>> \o EndAfter(x[1], x[2]) \o <<KindOfTok(x[3])>>
     \o (IF x[5] = "-" THEN EndAfter(x[3], "lf")
-        ELSE EndAfter(x[3], x[4]) \o <<x[5]>> \o EndAfter(x[5], "lf"))
+        ELSE EndAfter(x[3], x[4]) \o <<KindOfTok(x[5])>> \o EndAfter(x[5], "lf"))
 
 LayoutRule == mode = "done" => [i \in 1 .. Len(toks) |-> toks[i].k] = Expected(cs)
 NeverFails == mode # "failed"
